@@ -39,16 +39,24 @@ class Runner:
         self.rec = core.Recorder()
         self.reported = set()      # signatures already saved in this run
         self.harness_error = None
+        self.slowest = (0.0, None)
 
     def run_case(self, case, reraise):
         """Returns normally if the case passed / was excluded / hit a known finding."""
         rec = self.rec
+        t_case = time.time()
         try:
             signal.setitimer(signal.ITIMER_REAL, CASE_TIMEOUT)
             try:
                 nt = self.clause.oracle(case, rec)
             finally:
                 signal.setitimer(signal.ITIMER_REAL, 0)
+                dt = time.time() - t_case
+                if dt > self.slowest[0]:
+                    self.slowest = (dt, core.readable(case, 6))
+        except CaseTimeout as e:
+            e.args = (str(e) + ' on case ' + json.dumps(core.enc(case))[:6000],)
+            raise
         except Discard as d:
             rec.evaluations += 1
             rec.excluded[str(d)] += 1
@@ -98,6 +106,10 @@ class Runner:
         except Exception:
             pass
         budget = max(1, self.clause.budget(tier) // nshards)
+        from hypothesis.strategies import SearchStrategy
+        strat = self.clause.strategy
+        if not isinstance(strat, SearchStrategy):
+            strat = strat(tier)      # tier-dependent generated sizes
         # Up to 4 rounds: after an unlisted violation has been shrunk and saved,
         # its signature is excluded and the search restarts (so that one shallow
         # defect does not hide others behind it).
@@ -112,7 +124,7 @@ class Runner:
                       suppress_health_check=list(HealthCheck),
                       report_multiple_bugs=False, print_blob=False,
                       phases=[Phase.generate, Phase.shrink])
-            @given(self.clause.strategy)
+            @given(strat)
             def test(case):
                 self.run_case(case, reraise=True)
 
@@ -181,6 +193,7 @@ def main(argv):
             'known': rec.known,
             'violations': rec.violations,
             'samples': rec.samples,
+            'slowest': list(r.slowest),
         })
     except BaseException:
         out['error'] = traceback.format_exc()
